@@ -29,10 +29,18 @@ RULE = ("(a) per-case sweep: every ensemble of 1..3 slots over the grid {0,1/2,1
         "the data dims (sometimes a dim the forecast lacks), labels stored in shuffled order, plain / tail(upper,lower) / interval / generic "
         "chaining call, thresholds scalar or per-case arrays drawn from the same grid (so member = obs = threshold ties are frequent), both "
         "methods, include_components, weights, every request spelling, and a malformed stream (bad method / tail, lower >= upper, member dim in "
-        "obs / weights / request, both requests, unknown dim). A case is distinct by the hash of its full description and non-trivial when the "
+        "obs / weights / request, both requests, unknown dim); "
+        "(c) fixed stored ensemble sizes 5, 7, 9, 51 (and two of 3..50) with NaN members, through every per-case predicate; "
+        "(d) storage dtypes: the ensemble stored as float64 / float32 / int64 / int32 / int16 / int8 / uint8 / uint16 / uint32 / bool (integer "
+        "values, sometimes next to the ends of the dtype's range; 1..9, 12 or 51 members) and the observation in the same or another dtype, "
+        "scored by crps_for_ensemble, the tail / interval variants (fractional thresholds) and brier_score_for_ensemble (operators ge, gt, le, "
+        "lt; thresholds at k+1/2, on a member, a member +- 2^-30, below / above all data) against exact rational oracles and against the same "
+        "call on the float64 copy of the values. A case is distinct by the hash of its full description and non-trivial when the "
         "implementation returns at least one finite value.")
 ASSUMPTIONS = ["thresholds, members and observations are finite rationals or NaN (no +-inf inputs)",
-               "brier_score_for_ensemble is evaluated with the default operator.ge at interval midpoints, where >= and > coincide"]
+               "the Coq statement about brier_score_for_ensemble is for operator.ge (at interval midpoints >= and > coincide); the other operators "
+               "and thresholds on a member are compared with an exact rational oracle only",
+               "storage dtypes are not modelled in Coq (the model computes with rationals): independence of the storage dtype is a tested predicate"]
 TRUSTED = ["tools/sites/c06.py: custom translator site; it checks the statement skeleton of crps_for_ensemble / tw_* and translates only the "
            "elementwise expressions; the NaN-skipping sum/mean/count semantics it assumes are validated by the correspondence check"]
 
@@ -452,7 +460,7 @@ def rand_typed_batch(rng, k, fdt=None, M=None):
     ys = [y for _, y in cases]
     opts = [fdt, fdt, "float64"]
     if all(float(y).is_integer() for y in ys):
-        opts += ["int64", "int32"] + (["uint8"] if all(0 <= y <= 255 for y in ys) else []) + (["bool"] if all(y in (0, 1) for y in ys) else [])
+        opts += [d for d in ("int64", "int32", "uint8", "bool") if all(dtype_range(d)[0] <= y <= dtype_range(d)[1] for y in ys)]
     opts += ["float32"] if not wide else []
     odt = rng.choice(opts)
     return cases, fdt, odt
@@ -461,7 +469,10 @@ def rand_typed_batch(rng, k, fdt=None, M=None):
 def typed_arrays(cases, fdt, odt):
     f = np.array([[fl(x) for x in xs] for xs, _ in cases], dtype="float64")
     o = np.array([fl(y) for _, y in cases], dtype="float64")
-    return xr.DataArray(f.astype(fdt), dims=["case", "m"]), xr.DataArray(o.astype(odt), dims=["case"])
+    ft, ot = f.astype(fdt), o.astype(odt)
+    # the stored values are the generated ones (a generator that asks for a dtype that cannot hold them is a bug of the check)
+    assert np.array_equal(ft.astype("float64"), f, equal_nan=True) and np.array_equal(ot.astype("float64"), o, equal_nan=True), (fdt, odt)
+    return xr.DataArray(ft, dims=["case", "m"]), xr.DataArray(ot, dims=["case"])
 
 
 def storage_wraps(xs, y, fdt, odt):
